@@ -270,6 +270,13 @@ def untag(x):
             return tuple(untag(v) for v in x['__tuple__'])
         if set(x) == {'__float__'}:
             return float(x['__float__'])
+        if set(x) == {'__sub__'}:
+            import gen
+            name, args = x['__sub__']
+            return gen.SUBCLASSES[name](*untag(args))
+        if set(x) == {'__enum__'}:
+            import gen
+            return getattr(gen.ENUMS[x['__enum__'][0]], x['__enum__'][1])
         return {k: untag(v) for k, v in x.items()}
     if isinstance(x, list):
         return [untag(v) for v in x]
@@ -277,6 +284,15 @@ def untag(x):
 
 
 def tag(x):
+    if type(x).__module__ == 'gen':
+        import enum
+        if isinstance(x, enum.Enum):
+            return {'__enum__': [type(x).__name__, x.name]}
+        name = type(x).__name__
+        if name == 'StrSub':
+            return {'__sub__': [name, [str.__str__(x), tag(x.extra)]]}
+        basecls = type(x).__mro__[1]
+        return {'__sub__': [name, [tag(basecls(x))]]}
     if isinstance(x, bytes):
         return {'__bytes__': x.hex()}
     if isinstance(x, tuple):
